@@ -23,13 +23,22 @@ static size_t obj_getkey(void *ctx, void *obj, const void **dst_p)
 	return o->len;
 }
 
+/* what the free callback returns (the library documents no meaning for it: it must be ignored)
+ * and the byte the callback scrubs the object's key with before releasing it */
+static bool free_ret = true;
+static int scrub_byte;
+
 static bool obj_free(void *ctx, void *obj)
 {
 	struct Obj *o = obj;
 	if (freed_len < sizeof(freed_log) - 16)
 		freed_len += sprintf(freed_log + freed_len, "%s%d", freed_len ? "," : "", o->id);
+	/* a caller may hand cbtree_delete() the key stored inside the object (strpool_decref does):
+	 * after the callback that memory is gone, so scrub it to make a late read visible */
+	memset(o->key, scrub_byte, o->len);
+	scrub_byte ^= 0xff;
 	free(o);
-	return true;
+	return free_ret;
 }
 
 static void dump_node(struct Node *n)
@@ -145,6 +154,7 @@ int main(void)
 		k = v = NULL;
 		t = trk_live;
 		if (n == 1 && !strcmp(w[0], "#case")) {
+			free_ret = true;
 			reset_all();
 			puts("#case");
 			fflush(stdout);	/* a crash later must not swallow earlier cases' output */
@@ -167,6 +177,18 @@ int main(void)
 			live_cb += trk_live - t;
 			if (ok) printf("1 freed=%s ## ", freed_log); else printf("0 ## ");
 			dump_tree(cb); printf(" live=%ld\n", live_cb);
+		} else if (n == 2 && !strcmp(w[0], "delown") && (kl = hc_unhex(w[1], &k)) >= 0) {
+			/* delete through the key stored inside the object itself */
+			struct Obj *o = cbtree_lookup(cb, k, kl);
+			bool ok;
+			freed_len = 0; freed_log[0] = 0;
+			ok = o ? cbtree_delete(cb, o->key, o->len) : cbtree_delete(cb, k, kl);
+			live_cb += trk_live - t;
+			if (ok) printf("1 freed=%s ## ", freed_log); else printf("0 ## ");
+			dump_tree(cb); printf(" live=%ld\n", live_cb);
+		} else if (n == 2 && !strcmp(w[0], "freeret")) {
+			free_ret = atoi(w[1]) != 0;
+			puts("ok");
 		} else if (n == 2 && !strcmp(w[0], "walk")) {
 			struct WalkSt ws = { atoi(w[1]), 0, 1 };
 			bool ok = cbtree_walk(cb, walk_cb, &ws);
